@@ -23,7 +23,7 @@ ASSUMPTIONS = [cc.MODEL_NOTE, "the stage correspondence of C06/C07 (apply, reduc
 WIDE_TEXT_RULE = (
     "; plus the wide-text sweep: a 103-character text with a 2- or 4-byte character at every position in turn, and "
     "runs of 2-byte characters of every length up to 80 bytes, where an address, a datum, a withdrawal credential or a "
-    "metadata value is expected; resolution-level cases over stores of 1-2 UTxOs and wallets of 49..300 UTxOs at one address"
+    "metadata value is expected; resolution-level cases over stores of 1-2 UTxOs and wallets of 49..300 UTxOs at one address, a third of them under protocol parameters drawn from the edges of u64 (coefficient, constant, coins per byte in {0, 1, the usual value, 2^32, 2^64-1}; margin absent, 0, 200000, 2^64-1)"
 )
 
 
